@@ -20,7 +20,9 @@ def register(CHECKS, H):
         q.append({"unit": u, "args": ["--part", "graphs", "--n", "5", "--W", "1,2", "--selfcheck", "500"]})
         # complete graphs (the Rips / distance-matrix situation)
         q.append({"unit": u, "args": ["--part", "graphs", "--n", "5", "--W", "1,2,3", "--complete", "1", "--selfcheck", "500"]})
-        q.append({"unit": u, "args": ["--part", "graphs", "--n", "6", "--W", "1,2", "--complete", "1", "--variants", "0", "--selfcheck", "500"]})
+        # both vertex numberings: a seeded change in the dense-array branch (tie handling when several common neighbours
+        # appear at the same value) only showed under the second numbering
+        q.append({"unit": u, "args": ["--part", "graphs", "--n", "6", "--W", "1,2", "--complete", "1", "--selfcheck", "500"], "shards": 2})
         q.append({"unit": u, "args": ["--part", "ties", "--n", "5", "--W", "1,2", "--cap", "120", "--variants", "0", "--selfcheck", "5000"], "shards": 4})
         q.append({"unit": u, "args": ["--part", "union", "--n", "5", "--W", "1,2", "--block", "150", "--selfcheck", "50"]})
     for u in tbb:
